@@ -25,7 +25,7 @@ META = {
             "(C06:partial-flush-of-RecoverChainMapping-bulk-unloadable). Tie to /repo on every run: journaling KV under both stores of the "
             "real ChainService; for every journal prefix, cuts inside bulks and a second crash in a journaled recovery: real "
             "NewChainService+Recover, P1-P6, P11 parameters, P12 next child accepted, best legit, marker gone, replay vs crash-free node; the "
-            "code's write-unit sequence is diffed with the model journal.",
+            "code's write-unit sequence is diffed with the model journal; the real dpos.Status (g5's engine) restarted inside its replay window must report the same LIB sequence as without the restart.",
     "note": "Trusted: Coq kernel + vm_compute (no axioms); journaling store (zz_verif_journal_test.go, registered as a db implementation "
             "through an overlay file) as the model of db.DB: a committed transaction, a flushed bulk and a single Set are atomic and durable "
             "in issue order except where the engine cuts a bulk explicitly; badger below db.DB; engine, factory node and lib/chaindb.py; "
@@ -258,6 +258,9 @@ def run(ctx):
                                      "inner_bulk_cuts": ninner, "second_level_crash_points": nrecrash[0]}
     ctx.cov["exhaustive"] = True   # every journal prefix of the listed scenarios
     ctx.sample({"case": cases[0]["id"], "units": outs[0]["units"][:6]})
+    # consensus side of "same final state as a run without the crash": the real dpos.Status restarted inside the replay window
+    for f in cd.dpos_restart_family(ctx):
+        fails.append((f["key"], f["what"], f["replay"]))
     seen = set()
     for key, text, rep in fails:
         if key in seen:
